@@ -168,7 +168,8 @@ def _interval_callers(cls_path, label, fields_):
             from .connect import ev
             models = {ctx.fn("gfapy/line/common/field_data.py::FieldData.get"): m_get, ctx.fn("gfapy/line/edge/gfa2/validation.py::validate_interval"): m_vi}
             def post(k, v, st):
-                return z3.BoolVal(k == "return" and tuple(st.ghost.get("events", ())) == tuple(tuple(p) for p in fields_))
+                # each interval is checked exactly once, in whatever order
+                return z3.BoolVal(k == "return" and sorted(st.ghost.get("events", ())) == sorted(tuple(p) for p in fields_))
             return [Case("calls", [s], post, heap={s.oid: {}}, models=models)]
     VI.__name__ = VI.id
     return register(VI)
